@@ -655,7 +655,10 @@ def run(ctx: Ctx):
     H.run_sweeps(ctx, acc, extra)
     H.run_sequences(ctx, extra)
     H.run_structured(ctx, extra)
-    for what, rep in extra[:10]:
+    from harness.props import C15_r3 as R3
+
+    R3.run_all(ctx, extra)  # round 3: work volume, in-place edits between calls / duplicate labels, float extremes
+    for what, rep in extra[:12]:
         if rep.get("kind") in ("pr", "lv") and "nodes" in rep and "max_iter" in rep:
             what, rep = shrink(ctx, what, rep)
         ctx.violation(what, rep)
@@ -771,6 +774,13 @@ def replay(obj):
         from harness.props.C15_hard import replay_structured
 
         return replay_structured(obj)
+    if obj.get("kind") in ("work", "inplace", "duplicate", "extreme"):
+        print("found by the round-3 family `%s`:" % obj["kind"], obj.get("what"))
+        for h in obj.get("history", []):
+            print("   ", h)
+        print("re-run: ./check C15 --seed", obj.get("seed"), "--tier", obj.get("tier"))
+        if "nodes" not in obj or not isinstance(obj.get("resolution", 1.0), (int, float)):
+            return 1
     if "nodes" not in obj:
         print("replay names an unchecked obligation:", obj.get("unchecked") or obj.get("what"))
         return 1
